@@ -1,1 +1,260 @@
 //! Verification hook: raw-byte entry points of the network stack (preface, frames, mux, rpc) for totality checks.
+//!
+//! Thin public wrappers around crate-private items; they add no behaviour. A harness plays the peer: it writes
+//! arbitrary bytes into the transport handed to these functions and observes the result.
+use std::{collections::BTreeMap, sync::Arc};
+
+use zksync_concurrency::{ctx, io, limiter, net};
+use zksync_protobuf::ProtoFmt;
+
+use crate::{consensus, frame, gossip, metrics, mux, noise, preface, rpc};
+
+fn ctx_err(err: ctx::Error) -> String {
+    match err {
+        ctx::Error::Canceled(_) => "canceled".to_string(),
+        ctx::Error::Internal(err) => format!("{err:#}"),
+    }
+}
+
+/// `frame::recv_proto`.
+pub async fn recv_proto<T: ProtoFmt, S: io::AsyncRead + Unpin>(
+    ctx: &ctx::Ctx,
+    stream: &mut S,
+    max_size: usize,
+) -> Result<T, String> {
+    frame::recv_proto(ctx, stream, max_size).await.map_err(ctx_err)
+}
+
+/// `frame::send_proto`.
+pub async fn send_proto<T: ProtoFmt, S: io::AsyncWrite + Unpin>(
+    ctx: &ctx::Ctx,
+    stream: &mut S,
+    msg: &T,
+) -> Result<(), String> {
+    frame::send_proto(ctx, stream, msg).await.map_err(ctx_err)
+}
+
+/// Accepts one TCP connection from `listener` and runs `preface::accept` on it.
+/// `Ok(endpoint name)` or the error chain.
+pub async fn preface_accept(
+    ctx: &ctx::Ctx,
+    listener: &mut net::tcp::Listener,
+) -> Result<&'static str, String> {
+    let stream = metrics::MeteredStream::accept(ctx, listener)
+        .await
+        .map_err(ctx_err)?;
+    match preface::accept(ctx, stream).await {
+        Ok((_stream, preface::Endpoint::ConsensusNet)) => Ok("consensus_net"),
+        Ok((_stream, preface::Endpoint::GossipNet)) => Ok("gossip_net"),
+        Err(err) => Err(ctx_err(err)),
+    }
+}
+
+/// `noise::Stream::server_handshake` over `transport`, then the application reads with a `k`-byte buffer until
+/// end of stream or error. Returns the number of plaintext bytes delivered and how the stream ended.
+pub async fn noise_server_read_all<S: io::AsyncRead + io::AsyncWrite + Unpin>(
+    ctx: &ctx::Ctx,
+    transport: S,
+    k: usize,
+) -> Result<(u64, String), String> {
+    let mut stream = noise::Stream::server_handshake(ctx, transport)
+        .await
+        .map_err(ctx_err)?;
+    let mut buf = vec![0u8; k];
+    let mut total = 0u64;
+    loop {
+        match io::read(ctx, &mut stream, &mut buf).await {
+            Err(ctx::Canceled) => return Ok((total, "canceled".into())),
+            Ok(Ok(0)) => return Ok((total, "eof".into())),
+            Ok(Ok(n)) => total += n as u64,
+            Ok(Err(err)) => {
+                let kind = match err.kind() {
+                    io::ErrorKind::InvalidData => "invalid_data".to_string(),
+                    kind => format!("{kind:?}"),
+                };
+                return Ok((total, kind));
+            }
+        }
+    }
+}
+
+/// `mux::Config`.
+#[derive(Debug, Clone, Copy)]
+pub struct MuxCfg {
+    /// `read_frame_size`
+    pub read_frame_size: u64,
+    /// `read_buffer_size`
+    pub read_buffer_size: u64,
+    /// `read_frame_count`
+    pub read_frame_count: u64,
+    /// `write_frame_size`
+    pub write_frame_size: u64,
+}
+
+impl MuxCfg {
+    /// `rpc::MUX_CONFIG`.
+    pub fn rpc() -> Self {
+        let c = rpc::MUX_CONFIG;
+        Self {
+            read_frame_size: c.read_frame_size,
+            read_buffer_size: c.read_buffer_size,
+            read_frame_count: c.read_frame_count,
+            write_frame_size: c.write_frame_size,
+        }
+    }
+}
+
+fn run_error_class(err: &mux::RunError) -> &'static str {
+    match err {
+        mux::RunError::Config(_) => "config",
+        mux::RunError::Canceled(_) => "canceled",
+        mux::RunError::Closed => "closed",
+        mux::RunError::Protocol(_) => "protocol",
+        mux::RunError::IO(_) => "io",
+    }
+}
+
+/// `Mux::run` over `transport` with the given `(capability, max_streams)` tables. Nothing accepts or opens
+/// transient streams (an application that does not read). Returns the class of the `RunError`.
+pub async fn mux_run_idle<S: io::AsyncRead + io::AsyncWrite + Send>(
+    ctx: &ctx::Ctx,
+    transport: S,
+    cfg: MuxCfg,
+    accept: &[(u64, u32)],
+    connect: &[(u64, u32)],
+) -> String {
+    let queues = |t: &[(u64, u32)]| -> BTreeMap<mux::CapabilityId, Arc<mux::StreamQueue>> {
+        t.iter()
+            .map(|(cap, n)| (*cap, mux::StreamQueue::new(ctx, *n, limiter::Rate::INF)))
+            .collect()
+    };
+    let m = mux::Mux {
+        cfg: Arc::new(mux::Config {
+            read_frame_size: cfg.read_frame_size,
+            read_buffer_size: cfg.read_buffer_size,
+            read_frame_count: cfg.read_frame_count,
+            write_frame_size: cfg.write_frame_size,
+        }),
+        accept: queues(accept),
+        connect: queues(connect),
+    };
+    match m.run(ctx, transport).await {
+        Ok(()) => "ok".to_string(),
+        Err(err) => run_error_class(&err).to_string(),
+    }
+}
+
+struct PingHandler(usize);
+
+#[async_trait::async_trait]
+impl rpc::Handler<rpc::ping::Rpc> for PingHandler {
+    fn max_req_size(&self) -> usize {
+        self.0
+    }
+    async fn handle(
+        &self,
+        _ctx: &ctx::Ctx,
+        req: rpc::ping::Req,
+    ) -> anyhow::Result<rpc::ping::Resp> {
+        Ok(rpc::ping::Resp(req.0))
+    }
+}
+
+struct ConsensusHandler(usize);
+
+#[async_trait::async_trait]
+impl rpc::Handler<rpc::consensus::Rpc> for ConsensusHandler {
+    fn max_req_size(&self) -> usize {
+        self.0
+    }
+    async fn handle(
+        &self,
+        _ctx: &ctx::Ctx,
+        req: rpc::consensus::Req,
+    ) -> anyhow::Result<rpc::consensus::Resp> {
+        let _ = req;
+        Ok(rpc::consensus::Resp)
+    }
+}
+
+struct AddrsHandler(usize);
+
+#[async_trait::async_trait]
+impl rpc::Handler<rpc::push_validator_addrs::Rpc> for AddrsHandler {
+    fn max_req_size(&self) -> usize {
+        self.0
+    }
+    async fn handle(
+        &self,
+        _ctx: &ctx::Ctx,
+        req: rpc::push_validator_addrs::Req,
+    ) -> anyhow::Result<()> {
+        let _ = req;
+        Ok(())
+    }
+}
+
+/// Capability ids of the three servers of `rpc_service_run`, in stream-id order.
+pub fn rpc_capabilities() -> [(u64, u32); 3] {
+    use rpc::Rpc as _;
+    [
+        (
+            rpc::consensus::Rpc::CAPABILITY.id(),
+            rpc::consensus::Rpc::INFLIGHT,
+        ),
+        (
+            rpc::push_validator_addrs::Rpc::CAPABILITY.id(),
+            rpc::push_validator_addrs::Rpc::INFLIGHT,
+        ),
+        (rpc::ping::Rpc::CAPABILITY.id(), rpc::ping::Rpc::INFLIGHT),
+    ]
+}
+
+/// `rpc::Service::run` over `transport` with a consensus, a push_validator_addrs and a ping server
+/// (request size limits `max_req_size`, no rate limit). Returns the class of the `RunError`.
+pub async fn rpc_service_run<S: io::AsyncRead + io::AsyncWrite + Send>(
+    ctx: &ctx::Ctx,
+    transport: S,
+    max_req_size: usize,
+) -> String {
+    let service = rpc::Service::new()
+        .add_server::<rpc::consensus::Rpc>(ctx, ConsensusHandler(max_req_size), limiter::Rate::INF)
+        .add_server::<rpc::push_validator_addrs::Rpc>(
+            ctx,
+            AddrsHandler(max_req_size),
+            limiter::Rate::INF,
+        )
+        .add_server::<rpc::ping::Rpc>(ctx, PingHandler(max_req_size), limiter::Rate::INF);
+    match service.run(ctx, transport).await {
+        Ok(()) => "ok".to_string(),
+        Err(err) => run_error_class(&err).to_string(),
+    }
+}
+
+fn dec<T: ProtoFmt>(bytes: &[u8]) -> Result<T, String> {
+    zksync_protobuf::decode::<T>(bytes).map_err(|err| format!("{err:#}"))
+}
+
+/// `zksync_protobuf::decode::<T>` for the crate-private message types, selected by name.
+/// `None` = unknown name; `Ok(_)` = decoded.
+pub fn decode(ty: &str, bytes: &[u8]) -> Option<Result<usize, String>> {
+    fn dbg<T>(r: Result<T, String>) -> Result<usize, String> {
+        r.map(|_| 0)
+    }
+    Some(match ty {
+        "preface.Encryption" => dbg(dec::<preface::Encryption>(bytes)),
+        "preface.Endpoint" => dbg(dec::<preface::Endpoint>(bytes)),
+        "consensus.Handshake" => consensus::verif_entry::decode_handshake(bytes),
+        "gossip.Handshake" => gossip::verif_entry::decode_handshake(bytes),
+        "rpc.consensus.Req" => dbg(dec::<rpc::consensus::Req>(bytes)),
+        "rpc.consensus.Resp" => dbg(dec::<rpc::consensus::Resp>(bytes)),
+        "rpc.push_validator_addrs.Req" => dbg(dec::<rpc::push_validator_addrs::Req>(bytes)),
+        "rpc.push_tx.Req" => dbg(dec::<rpc::push_tx::Req>(bytes)),
+        "rpc.push_block_store_state.Req" => dbg(dec::<rpc::push_block_store_state::Req>(bytes)),
+        "rpc.get_block.Req" => dbg(dec::<rpc::get_block::Req>(bytes)),
+        "rpc.get_block.Resp" => dbg(dec::<rpc::get_block::Resp>(bytes)),
+        "rpc.ping.Req" => dbg(dec::<rpc::ping::Req>(bytes)),
+        "rpc.ping.Resp" => dbg(dec::<rpc::ping::Resp>(bytes)),
+        _ => return None,
+    })
+}
